@@ -5,7 +5,7 @@ from datetime import datetime
 
 from hypothesis import strategies as st
 
-from .. import cp1252
+from .. import cp1252, reftdf, specs
 from ..core import Sub
 
 PROP = {
@@ -312,6 +312,159 @@ def _sites():
     }
 
 
+def _site_objects():
+    """name -> (make(text) -> item object, attribute holding the text, write(obj) -> bytes): the same OBJECT is written, relabelled and written again"""
+    import numpy as np
+    from basictdf.basictdf import TdfEntry
+    from basictdf.tdfBlock import BlockType
+    from basictdf.tdfData3D import MarkerTrack
+    from basictdf.tdfEMG import EMGTrack
+    from basictdf.tdfEvents import Event, EventsDataType
+    from basictdf.tdfForce3D import ForceTorqueTrack
+    from basictdf.tdfForcePlatformsCalibration import ForcePlatformInfo
+    from basictdf.tdfOpticalSystem import OpticalChannelData
+    from basictdf.tdfTypes import CameraViewPort
+
+    d3 = np.array([[1, 2, 3], [4, 5, 6]], dtype="<f4")
+    pos = np.arange(12, dtype="<f4").reshape(4, 3)
+    vp = lambda: CameraViewPort(np.array([1, 2], dtype="<i4"), np.array([3, 4], dtype="<i4"))  # noqa
+    date = datetime.fromtimestamp(1_600_000_000)
+    return {
+        "marker.label": (lambda t: MarkerTrack(t, d3.copy()), "label"),
+        "emg.label": (lambda t: EMGTrack(t, np.array([1.5, 2.5], dtype="<f4")), "label"),
+        "force.label": (lambda t: ForceTorqueTrack(t, d3.copy(), d3 + 10, d3 + 20), "label"),
+        "platform.label": (lambda t: ForcePlatformInfo(t, np.array([0.5, 0.25], dtype="<f4"), pos.copy()), "label"),
+        "event.label": (lambda t: Event(t, [1.0], EventsDataType.singleEvent), "label"),
+        "optical.lens": (lambda t: OpticalChannelData(7, t, "x", "x", vp()), "lens_name"),
+        "optical.type": (lambda t: OpticalChannelData(7, "x", t, "x", vp()), "camera_type"),
+        "optical.name": (lambda t: OpticalChannelData(7, "x", "x", t, vp()), "camera_name"),
+        "entry.comment": (lambda t: TdfEntry(BlockType.data3D, 1, 4096, 77, date, date, date, t), "comment"),
+    }
+
+
+def run_relabel(ctx, case):
+    """one item object: written with text 1, its text attribute set to text 2, written again - the second write is held to text 2 alone
+    (exact field bytes if valid, ValueError if not), whatever the first write may have remembered"""
+    site = case["site"]
+    s1, s2 = ("".join(chr(c) for c in case[k]) for k in ("s", "s2"))
+    w, _, expected = _sites()[site]
+    make, attr = _site_objects()[site]
+
+    def write(o):
+        b = io.BytesIO()
+        o._write(b)
+        return b.getvalue()
+
+    ok, obj = ctx.must(lambda: make(s1), f"{site}/relabel/make", f"{site}: constructing an item with a valid text")
+    if not ok:
+        return
+    if not hasattr(obj, attr):
+        raise __import__("vf.env", fromlist=["HarnessError"]).HarnessError(f"{site}: no attribute {attr}")
+    for _ in range(case.get("writes_before", 1)):
+        ctx.must(lambda: write(obj), f"{site}/relabel/first-write", f"{site}: writing an item with a valid text")
+        if case.get("also_nbytes"):
+            getattr(obj, "nBytes", None)
+    setattr(obj, attr, s2)
+    valid2 = cp1252.encodable(s2) and len(s2) <= w - 1
+    try:
+        out = write(obj)
+        exc = None
+    except ValueError as e:
+        out, exc = None, e
+    except Exception as e:
+        from ..core import lib_frame
+
+        if lib_frame(e) is None:
+            raise
+        ctx.fail(f"{site}/relabel/raises-{type(e).__name__}", f"{site}: writing after the text was changed raised {type(e).__name__}: {e}")
+        return
+    if valid2:
+        if exc is not None:
+            ctx.fail(f"{site}/relabel/refuses-valid", f"{site}: after the text was changed to a valid one ({len(s2)} chars) the write raised {exc}")
+        elif out != expected(cp1252.field(s2, w)):
+            ctx.fail(f"{site}/relabel/stale-or-wrong-bytes", f"{site}: written once with {s1[:20]!r}, text then changed to {s2[:20]!r}: the second write does not carry the new text")
+    elif exc is None:
+        ctx.fail(f"{site}/relabel/accepts-invalid", f"{site}: written once with a valid text, then given an invalid one ({len(s2)} chars, encodable={cp1252.encodable(s2)}): "
+                                                    f"the second write produced {len(out)} bytes instead of ValueError")
+    ctx.case(case, True, labels=(site, "relabel:" + ("valid" if valid2 else "refused")))
+
+
+def relabel_strategy(tier):
+    @st.composite
+    def cases(draw):
+        site = draw(st.sampled_from(SITE_NAMES))
+        w = 32 if site.startswith("optical") else 256
+        ab = st.sampled_from(cp1252.ENCODABLE_CHARS)
+        s1 = draw(st.text(ab, max_size=w - 1))
+        kind = draw(st.sampled_from(["short", "short", "max", "over1", "bad", "empty", "longer", "shorter"]))
+        if kind == "max":
+            s2 = draw(st.text(ab, min_size=w - 1, max_size=w - 1))
+        elif kind == "over1":
+            s2 = draw(st.text(ab, min_size=w, max_size=w))
+        elif kind == "bad":
+            s2 = draw(st.text(ab, max_size=w - 3)) + draw(st.sampled_from(BAD_CPS).map(chr))
+        elif kind == "empty":
+            s2 = ""
+        elif kind == "longer":
+            s2 = s1 + draw(st.text(ab, min_size=1, max_size=max(1, w - 1 - len(s1))))[:max(0, w - 1 - len(s1))] or "z"
+        elif kind == "shorter":
+            s2 = s1[:len(s1) // 2]
+        else:
+            s2 = draw(st.text(ab, max_size=w - 1))
+        return {"site": site, "s": [ord(c) for c in s1], "s2": [ord(c) for c in s2], "writes_before": draw(st.sampled_from([1, 1, 2])), "also_nbytes": draw(st.booleans())}
+
+    return cases()
+
+
+# ---------------------------------------------------------------------------------------
+# several items in one block: every text field of every item is held to "text + NUL + zeros" (a writer that assembles the items in
+# one buffer can leave the tail of an earlier, longer text behind a later, shorter one)
+def multi_strategy(tier):
+    from .c07 import LABELLED, labelled_spec
+
+    @st.composite
+    def cases(draw):
+        t = draw(st.sampled_from(sorted(LABELLED)))
+        k = draw(st.integers(2, 4))
+        w = 32 if t == "optical" else 256
+        spec = labelled_spec(t, k)
+        ab = st.sampled_from(cp1252.ENCODABLE_CHARS)
+        lens = draw(st.sampled_from(["descending", "descending", "random", "long-then-empty"]))
+        for i, it in enumerate(spec[LABELLED[t]]):
+            n = {"descending": max(0, (w - 1) - i * draw(st.integers(1, max(1, w // k))) ), "long-then-empty": (w - 1 if i == 0 else 0),
+                 "random": draw(st.integers(0, w - 1))}[lens]
+            for key in (("lens", "type", "name") if t == "optical" else ("label",)):
+                it[key] = draw(st.text(ab, min_size=n, max_size=n))
+        return {"spec": spec}
+
+    return cases()
+
+
+def run_multi(ctx, case):
+    spec = case["spec"]
+    t = spec["t"]
+    ref, spans = reftdf.encode(spec, with_spans=True)
+    ok, blk = ctx.must(lambda: specs.build(spec), f"multi/{t}/build", f"constructing a {t} block whose items carry valid texts")
+    if not ok:
+        return
+    ok, w = ctx.must(lambda: specs.lib_write(blk), f"multi/{t}/write", f"writing a {t} block whose items carry valid texts")
+    if not ok:
+        return
+    if len(w) != len(ref):
+        ctx.fail(f"multi/{t}/length", f"{t}: block with {specs.n_items(spec)} items wrote {len(w)} bytes, the layout has {len(ref)}")
+    tails = 0
+    for s_, e_, c in spans:
+        if c == "string-tail":
+            tails += e_ - s_
+            if w[s_:e_] != ref[s_:e_]:
+                k = next(i for i in range(s_, e_) if w[i] != ref[i])
+                ctx.fail(f"multi/{t}/field-not-zero-padded", f"{t}: block with {specs.n_items(spec)} items: byte {k} behind the terminator of a text field is "
+                                                             f"{w[k]:#04x}, not zero (field bytes {s_}..{e_})")
+            if s_ > 0 and w[s_ - 1] != ref[s_ - 1]:
+                ctx.fail(f"multi/{t}/text-differs", f"{t}: the text field ending at byte {e_} does not carry the item's text")
+    ctx.case(case, tails > 0, labels=(f"multi:{t}", f"items={specs.n_items(spec)}"))
+
+
 SITE_NAMES = ["marker.label", "emg.label", "force.label", "platform.label", "event.label",
               "optical.lens", "optical.type", "optical.name", "entry.comment"]
 
@@ -414,6 +567,11 @@ SUBS = [
     Sub("block-sites-pairs", run_sites, kind="enum", enumerate=enum_site_pairs, shards=(4, 16),
         rule="each of the 9 string sites x every ordered pair of 28 characters that codecs / escapes / line-ending handling / trimming treat specially x 4 placements "
              "(finite product, enumerated completely): write, exact bytes, read back, read back with garbage behind the terminator"),
+    Sub("relabel", run_relabel, strategy=relabel_strategy, budget=(1200, 30000), shards=(2, 16),
+        rule="each of the 9 string sites: ONE item object written, its text attribute changed (shorter / longer / boundary / too long / not encodable / empty), written again: "
+             "the second write carries exactly the new text or raises ValueError"),
+    Sub("multi-item-blocks", run_multi, strategy=multi_strategy, budget=(600, 15000), shards=(2, 16),
+        rule="blocks of the six labelled types with 2..4 items whose texts get shorter from item to item: every byte behind every terminator is zero in the block's bytes"),
     Sub("block-sites", run_sites, strategy=sites_strategy, budget=(1500, 40000), shards=(2, 16),
         rule="each of the 9 string fields of item classes / table entries with text of width-1 (must store, next field intact), >= width or non-cp1252 (ValueError)"),
 ]
